@@ -862,9 +862,10 @@ def rf156(run):
     run.rule(rule, 'mir2c out_insn, overflow instructions: the case region is executed abstractly (helpers of the unit included, strings and '
                    'flags passed to them bound concretely) and the text is parsed into its __builtin_*_overflow calls.  ADDO / SUBO (and '
                    'the S forms) compute __overflow with the signed type into the destination and __uoverflow with the unsigned type into a '
-                   'temporary; MULO(S) only __overflow, UMULO(S) only __uoverflow; widths follow the opcode.  The call that stores the '
-                   'destination is the *last* one: the destination may be a source operand (`addo a, a, b`), and a flag computed after the '
-                   'store reads the new value')
+                   'temporary; MULO(S) only __overflow, UMULO(S) only __uoverflow; widths follow the opcode.  The destination is written by '
+                   'one assignment of the result temporary (never through a pointer cast of the destination: it may be a narrower memory, '
+                   'D111) and that assignment is the *last* statement: the destination may be a source operand (`addo a, a, b`), and a '
+                   'flag computed after the store reads the new value')
     tu = run.tu('mir2c')
     f = tu.func('out_insn')
     run.functions_analysed.add(('mir2c', f.name))
@@ -875,7 +876,9 @@ def rf156(run):
     codes = dict(tu.enum('MIR_insn_code_t'))
     SPEC = {'MIR_ADDO': ('add', 64, ('s', 'u')), 'MIR_SUBO': ('sub', 64, ('s', 'u')), 'MIR_MULO': ('mul', 64, ('s',)), 'MIR_UMULO': ('mul', 64, ('u',)),
             'MIR_ADDOS': ('add', 32, ('s', 'u')), 'MIR_SUBOS': ('sub', 32, ('s', 'u')), 'MIR_MULOS': ('mul', 32, ('s',)), 'MIR_UMULOS': ('mul', 32, ('u',))}
-    call_re = re.compile(r'(__u?overflow)\s*=\s*__builtin_(add|sub|mul)_overflow\s*\(\s*\((u?int(?:32|64)_t)\)\s*\$1\s*,\s*\((u?int(?:32|64)_t)\)\s*\$2\s*,\s*(&__u|\((u?int(?:32|64)_t)\s*\*\)\s*&\s*\$0)\s*\)')
+    call_re = re.compile(r'(__u?overflow)\s*=\s*__builtin_(add|sub|mul)_overflow\s*\(\s*\((u?int(?:32|64)_t)\)\s*\$1\s*,\s*\((u?int(?:32|64)_t)\)\s*\$2\s*,\s*(&\s*(__\w+)|\((u?int(?:32|64)_t)\s*\*\)\s*&\s*\$0)\s*\)')
+    decl_re = re.compile(r'\{\s*(u?int(?:32|64)_t)\s+(__\w+)\s*;')
+    asg_re = re.compile(r'\$0\s*=\s*(__\w+)\s*;')
     n = 0
     for nm, (op, w, flags) in SPEC.items():
         idx = [i for i, r in enumerate(regs) if nm in [c[0] for c in r['cases']]]
@@ -905,25 +908,38 @@ def rf156(run):
         except F.AnalysisBroken as e_:
             raise F.AnalysisBroken('out_insn (%s): %s' % (nm, e_))
         txt = ' '.join(ex.text().split())
-        found = call_re.findall(txt)
+        found = list(call_re.finditer(txt))
+        temps = {m_.group(2): m_.group(1) for m_ in decl_re.finditer(txt)}
+        asg = list(asg_re.finditer(txt))
         why = None
         if not found or len(found) != len(flags):
             why = 'expected %d __builtin_%s_overflow call(s), text is `%s`' % (len(flags), op, txt[:140])
+        elif len(asg) != 1:
+            why = 'the destination is not written by one assignment of a temporary (`$0 = __r;`): a result stored through a pointer of ' \
+                  'the computation type (`(int64_t *)&$0`) overruns a narrower memory destination (`addo i32:(p), a, b` clobbers the next ' \
+                  'element) and leaves the upper half of the variable stale for the 32-bit forms; text is `%s`' % txt[:160]
         else:
             seen = set()
-            for k, (flag, name, t1, t2, dst, t3) in enumerate(found):
+            res_tmp = asg[0].group(1)
+            for k, m_ in enumerate(found):
+                flag, name, t1, t2, tmp, t3 = m_.group(1), m_.group(2), m_.group(3), m_.group(4), m_.group(6), m_.group(7)
                 sg = 'u' if flag == '__uoverflow' else 's'
                 want_t = ('u' if sg == 'u' else '') + 'int%d_t' % w
                 seen.add(sg)
-                if name != op or t1 != want_t or t2 != want_t or (t3 and t3 != want_t):
-                    why = '%s is computed by __builtin_%s_overflow on (%s, %s): expected %s on %s' % (flag, name, t1, t2, op, want_t)
-                stores = dst != '&__u'
-                # exactly one call stores the destination: the signed one when both flags are computed
+                dt = t3 if t3 else temps.get(tmp)
+                if name != op or t1 != want_t or t2 != want_t or dt != want_t:
+                    why = '%s is computed by __builtin_%s_overflow on (%s, %s) into %s: expected %s on %s' % (flag, name, t1, t2, dt, op, want_t)
+                if t3:
+                    why = 'the result of %s is stored through `(%s *)&$0`: a narrower memory destination is overrun' % (flag, t3)
+                stores = tmp == res_tmp
+                # exactly one computation provides the destination: the signed one when both flags are computed
                 if len(flags) == 2 and stores != (sg == 's'):
-                    why = 'the destination is stored by the %s computation' % ('unsigned' if sg == 'u' else 'temporary-only signed')
-                if stores and k != len(found) - 1:
-                    why = 'the call that stores the destination ($0) comes before the computation of %s, which reads $1 / $2 again: with ' \
-                          '`%s a, a, b` the second flag is computed from the result' % (found[-1][0], nm[4:].lower())
+                    why = 'the destination is taken from the %s computation' % ('unsigned' if sg == 'u' else 'wrong')
+            if why is None and res_tmp not in [m_.group(6) for m_ in found]:
+                why = 'the destination is assigned `%s`, which no overflow computation writes' % res_tmp
+            if why is None and asg[0].start() < found[-1].end():
+                why = 'the assignment of the destination ($0) comes before the computation of %s, which reads $1 / $2 again: with ' \
+                      '`%s a, a, b` the second flag is computed from the result' % (found[-1].group(1), nm[4:].lower())
             if why is None and seen != set(flags):
                 why = 'flags computed: %s, expected %s' % (sorted(seen), sorted(flags))
         n += 1
